@@ -4,7 +4,9 @@ use crate::net_utils::TcpDestination;
 use crate::pipe::DuplexPipe;
 use crate::tcp_forwarder::TcpForwarder;
 use crate::tls_demultiplexer::Protocol;
-use crate::{core, forwarder, http1_codec, http_codec, log_id, log_utils, pipe, tunnel};
+use crate::{
+    core, forwarder, http1_codec, http_codec, log_id, log_utils, net_utils, pipe, tunnel,
+};
 use bytes::{BufMut, BytesMut};
 use std::io;
 use std::io::ErrorKind;
@@ -108,7 +110,12 @@ async fn handle_stream(
     log_id: &log_utils::IdChain<u64>,
 ) -> io::Result<()> {
     let (request, respond) = stream.split();
-    log_id!(trace, log_id, "Received request: {:?}", request.request());
+    log_id!(
+        trace,
+        log_id,
+        "Received request: {:?}",
+        net_utils::scrub_request(request.request())
+    );
 
     let forwarder = Box::new(TcpForwarder::new_for_configured_destination(
         context.clone(),
@@ -156,7 +163,7 @@ async fn handle_stream(
         trace,
         log_id,
         "Sending translated request: {:?}",
-        request_headers
+        net_utils::scrub_request(&request_headers)
     );
     server_sink.write_all(encoded).await?;
 
